@@ -44,6 +44,9 @@ CLAIMS = {
  "C06": ("exploration", "8.C06", "deterministic simulation of two complete stacks (connect -> NFC-DEP -> LLCP -> SNEP/handover) over the real udp driver on a simulated network, octets compared at both application boundaries",
          "Seeded exploration over roles, link MIUs, aggregation, socket MIU/RW of client and server, bit rate / length reduction, acceptable-length limits and 1-3 put/get/handover requests with sizes around multiples of the fragment size; thread schedules with pre-emption. The server application must see each message exactly once, octet identical; over-limit messages must be refused and never delivered in part; get/handover responses must arrive octet identical.",
          "no air faults here (C04/C09 own them); link threads are pre-empted but not stalled (NFC-DEP response waiting time)"),
+ "C04": ("fault_enumeration", "8.C04", "deterministic simulation: real NFC-DEP Initiator and Target over the real udp driver on a simulated air with enumerated per-frame {deliver, lose, corrupt} scripts",
+         "For each seeded (DID, NAD, LRi, LRt, bit rate, RWT, conversation of 1-12 exchanges with payloads around multiples of the MIU) scenario: every single-fault script over the DEP-phase datagrams and all (thorough) / sampled (quick) double-fault scripts. Safety: payloads returned on each side are element-wise equal prefixes of what was passed in, only CommunicationError leaves exchange(), every frame measured against the LR read from the ATR on the wire. Liveness: a single lost or corrupted frame must be recovered.",
+         "activation-phase frames (incl. the first DEP_REQ which the udp driver consumes in listen) are not faulted; RTOX and clock faults not generated"),
 }
 NA = {
  "C11": "pure encode/decode function of its argument: no schedule, clock, fault, peer or history enters the statement; deterministic simulation adds nothing over input generation (DESIGN.md section 9)",
